@@ -3,8 +3,8 @@
 // range::size and the static math::int_range and records the sequences they enumerate (ndjson).
 // It contains no expected values: spec/RangesJudge.tla (TLC) judges every record.
 //
-//   c18_ranges record OUT tier        (tier: quick | thorough)
-//   c18_ranges replay RECORD.json OUT
+//   c18_<unit> record OUT tier [SKIP]   (tier: quick | thorough; SKIP: number of driven calls to skip)
+//   c18_<unit> replay RECORD.json OUT
 //
 // Conventions (representation, not expectations): iterations are cut after CAP steps (watchdog,
 // "capped":true); values of 32/64 bit types in the *_wide records are logged biased (value minus
@@ -12,37 +12,62 @@
 // >= 2^31-1 are logged as 2147483647.
 #include <common/vjson.hpp>
 
+// Translation units (round 3): this file is compiled once per unit with exactly one of
+//   -DC18_U_INT  -DC18_U_ENUM  -DC18_U_CYCLIC  -DC18_U_GRID  -DC18_U_ITER  -DC18_U_OBS
+// so that a unit whose fcppt headers no longer compile does not take the others with it.  C18_U_OBS is the
+// observed-only unit (fcppt::range::size on every kind of range, math::int_range, the iterators taken by
+// themselves): it re-uses the drivers of the other units with C18_RSIZE defined.
+#if defined(C18_U_OBS)
+#define C18_U_INT
+#define C18_U_ENUM
+#define C18_U_GRID
+#define C18_U_ITER
+#define C18_RSIZE
+#endif
+
+#if defined(C18_U_CYCLIC)
 #include <fcppt/cyclic_iterator.hpp>
+#endif
+#if defined(C18_U_INT)
 #include <fcppt/int_range_impl.hpp>
+#include <fcppt/int_iterator_impl.hpp>
 #include <fcppt/make_int_range.hpp>
 #include <fcppt/make_int_range_count.hpp>
 #include <fcppt/make_literal_strong_typedef.hpp>
 #include <fcppt/make_strong_typedef.hpp>
 #include <fcppt/strong_typedef.hpp>
-#include <fcppt/tag.hpp>
-#include <fcppt/algorithm/loop.hpp>
-#include <fcppt/algorithm/loop_break_mpl.hpp>
+#include <fcppt/type_iso/strong_typedef.hpp>
+#endif
+#if defined(C18_U_GRID)
 #include <fcppt/container/grid/make_spiral_range.hpp>
 #include <fcppt/container/grid/moore_neighbors.hpp>
 #include <fcppt/container/grid/neumann_neighbors.hpp>
 #include <fcppt/container/grid/pos.hpp>
 #include <fcppt/container/grid/spiral_range_impl.hpp>
+#include <fcppt/math/vector/comparison.hpp>
+#endif
+#if defined(C18_U_ENUM)
 #include <fcppt/enum/make_range.hpp>
 #include <fcppt/enum/make_range_start.hpp>
 #include <fcppt/enum/make_range_start_end.hpp>
 #include <fcppt/enum/iterator_impl.hpp>
 #include <fcppt/enum/range_impl.hpp>
-#include <fcppt/int_iterator_impl.hpp>
+#endif
+#if defined(C18_U_ITER)
 #include <fcppt/iterator/adapt_range.hpp>
 #include <fcppt/iterator/make_range.hpp>
 #include <fcppt/iterator/range_impl.hpp>
+#endif
+#if defined(C18_U_OBS)
+#include <fcppt/tag.hpp>
+#include <fcppt/algorithm/loop.hpp>
+#include <fcppt/algorithm/loop_break_mpl.hpp>
 #include <fcppt/math/int_range.hpp>
 #include <fcppt/math/int_range_count.hpp>
 #include <fcppt/math/size_constant.hpp>
 #include <fcppt/math/size_type.hpp>
-#include <fcppt/math/vector/comparison.hpp>
 #include <fcppt/range/size.hpp>
-#include <fcppt/type_iso/strong_typedef.hpp>
+#endif
 
 #include <cstdint>
 #include <deque>
@@ -59,11 +84,28 @@ namespace
 using ll = long long;
 using ull = unsigned long long;
 constexpr int CAP = 400;
+constexpr unsigned CALL_SECONDS = 30; // watchdog of one driven call (SIGALRM -> "hang", exit 68)
+
+// every driven call has a number (in the order of the driver); `record OUT tier SKIP` does not execute
+// the first SKIP calls: the check restarts the unit behind a call that crashed / hung
+long g_call = 0, g_skip = 0;
+bool want()
+{
+  bool const w = g_call >= g_skip;
+  ++g_call;
+  if (w) alarm(CALL_SECONDS);
+  return w;
+}
 
 ll sat(ull v) { return v >= 2147483647ULL ? 2147483647LL : static_cast<ll>(v); }
 std::string jl(std::vector<ll> const &v) { return vj::arr(v); }
 std::string b2s(bool b) { return b ? "true" : "false"; }
+template <typename T>
+struct tg
+{
+};
 
+#if defined(C18_U_INT)
 FCPPT_MAKE_STRONG_TYPEDEF(std::int8_t, st_i8);
 FCPPT_MAKE_STRONG_TYPEDEF(std::uint8_t, st_u8);
 FCPPT_MAKE_STRONG_TYPEDEF(int, st_i32);
@@ -106,9 +148,26 @@ TINFO_ST(st_u16, "u16", std::uint16_t);
 #undef TINFO_ST
 
 // ------------------------------------------------------------------ integer ranges (values fit TLC)
-template <typename T>
-void op_int_range(ll b, ll e, bool mk)
+// second walk of a range through the operators fcppt::iterator::base derives: `*it++` (post-increment,
+// the returned copy is dereferenced) and `!(it == end)`
+template <typename R, typename G>
+std::vector<ll> walk_post(R const &r, G const &get)
 {
+  std::vector<ll> seq2;
+  auto const end = r.end();
+  for (auto it = r.begin(); !(it == end);)
+  {
+    if (seq2.size() == CAP) break;
+    auto const old = it++;
+    seq2.push_back(get(*old));
+  }
+  return seq2;
+}
+
+template <typename T>
+void op_int_range(ll b, ll e, bool mk, bool w2)
+{
+  if (!want()) return;
   using I = tinfo<T>;
   vj::begin_call(vj::J().kv("f", "int_range").kv("T", I::name()).kv("st", I::st).kv("via", mk ? "mk" : "ctor").kv("b", b).kv("e", e).s);
   fcppt::int_range<T> const r = mk ? fcppt::make_int_range(I::make(b), I::make(e)) : fcppt::int_range<T>(I::make(b), I::make(e));
@@ -124,21 +183,27 @@ void op_int_range(ll b, ll e, bool mk)
     }
     seq.push_back(static_cast<ll>(I::get(*it)));
   }
+  std::vector<ll> seq2;
+  if (w2) seq2 = walk_post(r, [](T const &x) { return static_cast<ll>(I::get(x)); });
   ll const size = static_cast<ll>(r.size());
-  // fcppt::range::size (std::distance in the iterator's difference type = Int): driven for plain signed
-  // types when the number of elements fits the type
+  // fcppt::range::size (std::distance in the iterator's difference type = Int): driven (observed-only unit)
+  // for plain signed types when the number of elements fits the type
   ll rsize = -1;
+#if defined(C18_RSIZE)
   if constexpr (std::is_signed_v<T> && !I::st)
   {
     ll const cnt = e > b ? e - b : 0;
     if (cnt <= static_cast<ll>(std::numeric_limits<T>::max())) rsize = static_cast<ll>(fcppt::range::size(r));
   }
-  vj::end_call(",\"seq\":" + jl(seq) + ",\"capped\":" + b2s(capped) + ",\"size\":" + std::to_string(size) + ",\"rsize\":" + std::to_string(rsize) + "}");
+#endif
+  vj::end_call(",\"seq\":" + jl(seq) + ",\"capped\":" + b2s(capped) + ",\"w2\":" + b2s(w2) + ",\"seq2\":" + jl(seq2) + ",\"size\":" + std::to_string(size) +
+               ",\"rsize\":" + std::to_string(rsize) + "}");
 }
 
 template <typename T>
 void op_int_range_count(ll n)
 {
+  if (!want()) return;
   using I = tinfo<T>;
   vj::begin_call(vj::J().kv("f", "int_range_count").kv("T", I::name()).kv("st", I::st).kv("n", n).s);
   fcppt::int_range<T> const r = fcppt::make_int_range_count(I::make(n));
@@ -153,13 +218,16 @@ void op_int_range_count(ll n)
     }
     seq.push_back(static_cast<ll>(I::get(*it)));
   }
+  std::vector<ll> const seq2 = walk_post(r, [](T const &x) { return static_cast<ll>(I::get(x)); });
   ll const size = static_cast<ll>(r.size());
-  vj::end_call(",\"seq\":" + jl(seq) + ",\"capped\":" + b2s(capped) + ",\"size\":" + std::to_string(size) + "}");
+  vj::end_call(",\"seq\":" + jl(seq) + ",\"capped\":" + b2s(capped) + ",\"seq2\":" + jl(seq2) + ",\"size\":" + std::to_string(size) + "}");
 }
 
+#if defined(C18_RSIZE)
 // small ranges of int, additionally through fcppt::range::size
 void op_int_range_rsize(ll b, ll e)
 {
+  if (!want()) return;
   vj::begin_call(vj::J().kv("f", "int_range_rsize").kv("T", "i32").kv("b", b).kv("e", e).s);
   auto const r = fcppt::make_int_range(static_cast<int>(b), static_cast<int>(e));
   std::vector<ll> seq;
@@ -170,6 +238,7 @@ void op_int_range_rsize(ll b, ll e)
   }
   vj::end_call(",\"seq\":" + jl(seq) + ",\"size\":" + std::to_string(r.size()) + ",\"rsize\":" + std::to_string(sat(fcppt::range::size(r))) + "}");
 }
+#endif
 
 // ------------------------------------------------------------------ wide types (limbs)
 template <typename W>
@@ -216,6 +285,7 @@ std::vector<W> lattice()
 template <typename W>
 void op_int_range_wide(int bi, int ei)
 {
+  if (!want()) return;
   auto const lat = lattice<W>();
   W const b = lat.at(static_cast<std::size_t>(bi)), e = lat.at(static_cast<std::size_t>(ei));
   vj::begin_call(vj::J().kv("f", "int_range_wide").kv("T", wname<W>()).kv("bi", bi).kv("ei", ei).raw("b", limbs(b)).raw("e", limbs(e)).s);
@@ -235,12 +305,26 @@ void op_int_range_wide(int bi, int ei)
     ++n;
   }
   seq += "]";
+  std::string seq2 = "[";
+  {
+    int k = 0;
+    auto const end = r.end();
+    for (auto it = r.begin(); !(it == end) && k < CAP; ++k)
+    {
+      auto const old = it++;
+      if (k) seq2 += ',';
+      seq2 += limbs(*old);
+    }
+  }
+  seq2 += "]";
   // size() of a non-empty range whose count does not fit the type is not constrained (and is a
   // signed overflow for int/long): the driver only drives short and empty/inverted ranges here
   ll const size = static_cast<ll>(r.size());
-  vj::end_call(",\"seq\":" + seq + ",\"capped\":" + b2s(capped) + ",\"size\":" + std::to_string(size) + "}");
+  vj::end_call(",\"seq\":" + seq + ",\"capped\":" + b2s(capped) + ",\"seq2\":" + seq2 + ",\"size\":" + std::to_string(size) + "}");
 }
+#endif // C18_U_INT
 
+#if defined(C18_U_ENUM)
 // ------------------------------------------------------------------ enum ranges
 enum class e1
 {
@@ -322,6 +406,7 @@ char const *ename<e5>() { return "e5"; }
 template <typename E>
 void op_enum_range(std::string const &via, ll s, ll e)
 {
+  if (!want()) return;
   ll const n = static_cast<ll>(E::fcppt_maximum) + 1;
   vj::begin_call(vj::J().kv("f", "enum_range").kv("E", ename<E>()).kv("n", n).kv("via", via).kv("s", s).kv("e", e).s);
   fcppt::enum_::range<E> const r = via == "all" ? fcppt::enum_::make_range<E>()
@@ -338,8 +423,22 @@ void op_enum_range(std::string const &via, ll s, ll e)
     }
     seq.push_back(static_cast<ll>(*it));
   }
-  vj::end_call(",\"seq\":" + jl(seq) + ",\"capped\":" + b2s(capped) + ",\"size\":" + std::to_string(sat(static_cast<ull>(r.size()))) + ",\"rsize\":" +
-               std::to_string(sat(static_cast<ull>(fcppt::range::size(r)))) + "}");
+  // second walk: `*it++` and `!(it == end)` (the operators fcppt::iterator::base derives)
+  std::vector<ll> seq2;
+  {
+    auto const end = r.end();
+    for (auto it = r.begin(); !(it == end) && seq2.size() < CAP;)
+    {
+      auto const old = it++;
+      seq2.push_back(static_cast<ll>(*old));
+    }
+  }
+  ll rsize = -1;
+#if defined(C18_RSIZE)
+  rsize = sat(static_cast<ull>(fcppt::range::size(r)));
+#endif
+  vj::end_call(",\"seq\":" + jl(seq) + ",\"capped\":" + b2s(capped) + ",\"seq2\":" + jl(seq2) + ",\"size\":" + std::to_string(sat(static_cast<ull>(r.size()))) +
+               ",\"rsize\":" + std::to_string(rsize) + "}");
 }
 
 template <typename E>
@@ -353,11 +452,17 @@ void all_enum_ranges()
     for (ll e = s; e < n; ++e) op_enum_range<E>("start_end", s, e);
   }
 }
+#endif // C18_U_ENUM
 
+#if defined(C18_U_CYCLIC)
 // ------------------------------------------------------------------ cyclic iterator
 constexpr int MARGIN = 30;
+// Positions are logged as the index of the element the iterator stands on, relative to the first element
+// of the boundary (from the container iterator inside, `get()`), resp. - for operator[] and operator-> -
+// by the identity (address) of the element returned.
 void op_cyclic(int len, int start, int n)
 {
+  if (!want()) return;
   vj::begin_call(vj::J().kv("f", "cyclic").kv("len", len).kv("start", start).kv("n", n).s);
   std::vector<int> cont;
   for (int i = 0; i < len + 2 * MARGIN; ++i) cont.push_back(1000 + i - MARGIN); // cont[MARGIN + k] = 1000 + k
@@ -365,15 +470,68 @@ void op_cyclic(int len, int start, int n)
   using cyc = fcppt::cyclic_iterator<cit>;
   cit const first = cont.begin() + MARGIN;
   cit const second = first + len;
+  int const *const first_p = cont.data() + MARGIN;
   cyc const s0(first + start, cyc::boundary{first, second});
   auto const idx = [&](cyc const &c) { return static_cast<ll>(c.get() - first); };
+  auto const pidx = [&](int const *p) { return static_cast<ll>(p - first_p); };
   cyc a(s0);
   a += n;
   cyc const p = s0 + n;
+  cyc const np = n + s0;
   cyc m(s0);
   m -= n;
+  cyc const mi = s0 - n;
+  int const &subr = s0[n];
+  ll const subi = pidx(&subr), subv = subr;
+  ll const arrow = pidx(a.operator->()), arrow0 = pidx(s0.operator->());
   std::vector<ll> steps, vals;
   cyc w(s0);
+  bool preself = true;
+  for (int k = 0; k < (n < 0 ? -n : n); ++k)
+  {
+    cyc const &ret = n > 0 ? ++w : --w;
+    preself = preself && &ret == &w;
+    steps.push_back(idx(w));
+    vals.push_back(*w);
+  }
+  // the same walk with post-increment / post-decrement: the positions of the returned (old) iterators
+  std::vector<ll> olds;
+  cyc w2(s0);
+  for (int k = 0; k < (n < 0 ? -n : n); ++k)
+  {
+    cyc const old = n > 0 ? w2++ : w2--;
+    olds.push_back(idx(old));
+  }
+  vj::end_call(",\"base\":1000,\"adv\":" + std::to_string(idx(a)) + ",\"advv\":" + std::to_string(*a) + ",\"plus\":" + std::to_string(idx(p)) +
+               ",\"npa\":" + std::to_string(idx(np)) + ",\"sub\":" + std::to_string(idx(m)) + ",\"minus\":" + std::to_string(idx(mi)) +
+               ",\"subi\":" + std::to_string(subi) + ",\"subv\":" + std::to_string(subv) + ",\"arrow\":" + std::to_string(arrow) +
+               ",\"arrow0\":" + std::to_string(arrow0) + ",\"steps\":" + jl(steps) + ",\"stepv\":" + jl(vals) + ",\"preself\":" + b2s(preself) +
+               ",\"olds\":" + jl(olds) + ",\"w2\":" + std::to_string(idx(w2)) + ",\"s0v\":" + std::to_string(*s0) + "}");
+}
+
+// cyclic_iterator over a bidirectional container iterator (std::list): |n| single steps with ++ / -- (pre and
+// post); the boundary lies inside a longer list; a position is the index of the list node the iterator
+// stands on relative to the first node of the boundary (-99: the end of the list)
+void op_cyclic_list(int len, int start, int n)
+{
+  if (!want()) return;
+  vj::begin_call(vj::J().kv("f", "cyclic_list").kv("len", len).kv("start", start).kv("n", n).s);
+  constexpr int LM = 3;
+  std::list<int> lst;
+  for (int i = 0; i < len + 2 * LM; ++i) lst.push_back(1000 + i - LM);
+  using lit = std::list<int>::const_iterator;
+  using cyc = fcppt::cyclic_iterator<lit>;
+  lit const first = std::next(lst.cbegin(), LM);
+  lit const second = std::next(first, len);
+  auto const idx = [&](cyc const &c) -> ll {
+    ll k = 0;
+    for (lit i = lst.cbegin(); i != lst.cend(); ++i, ++k)
+      if (i == c.get()) return k - LM;
+    return -99;
+  };
+  cyc const s0(std::next(first, start), cyc::boundary{first, second});
+  std::vector<ll> steps, olds;
+  cyc w(s0), w2(s0);
   for (int k = 0; k < (n < 0 ? -n : n); ++k)
   {
     if (n > 0)
@@ -381,12 +539,14 @@ void op_cyclic(int len, int start, int n)
     else
       --w;
     steps.push_back(idx(w));
-    vals.push_back(*w);
+    cyc const old = n > 0 ? w2++ : w2--;
+    olds.push_back(idx(old));
   }
-  vj::end_call(",\"base\":1000,\"adv\":" + std::to_string(idx(a)) + ",\"advv\":" + std::to_string(*a) + ",\"plus\":" + std::to_string(idx(p)) +
-               ",\"sub\":" + std::to_string(idx(m)) + ",\"steps\":" + jl(steps) + ",\"stepv\":" + jl(vals) + ",\"s0v\":" + std::to_string(*s0) + "}");
+  vj::end_call(",\"steps\":" + jl(steps) + ",\"olds\":" + jl(olds) + ",\"w2\":" + std::to_string(idx(w2)) + ",\"eq\":" + b2s(w == w2) + ",\"ne\":" + b2s(w != w2) + "}");
 }
+#endif // C18_U_CYCLIC
 
+#if defined(C18_U_GRID)
 // ------------------------------------------------------------------ spiral range, neighbours
 template <typename T>
 char const *pname();
@@ -408,6 +568,7 @@ std::string jp(P const &p)
 template <typename T>
 void op_spiral(ll ox, ll oy, ll d)
 {
+  if (!want()) return;
   using pos = fcppt::container::grid::pos<T, 2>;
   vj::begin_call(vj::J().kv("f", "spiral").kv("T", pname<T>()).raw("o", "[" + std::to_string(ox) + "," + std::to_string(oy) + "]").kv("d", d).s);
   auto const r = fcppt::container::grid::make_spiral_range(pos(static_cast<T>(ox), static_cast<T>(oy)), static_cast<T>(d));
@@ -425,13 +586,29 @@ void op_spiral(ll ox, ll oy, ll d)
     vis += jp(*it);
     ++n;
   }
-  ll const rsize = capped ? -1 : sat(static_cast<ull>(fcppt::range::size(r)));
-  vj::end_call(",\"vis\":" + vis + "],\"capped\":" + b2s(capped) + ",\"rsize\":" + std::to_string(rsize) + "}");
+  // second walk: `*it++` and `!(it == end)` (the operators fcppt::iterator::base derives)
+  std::string vis2 = "[";
+  {
+    int k = 0;
+    auto const end = r.end();
+    for (auto it = r.begin(); !(it == end) && k < CAP; ++k)
+    {
+      auto const old = it++;
+      if (k) vis2 += ',';
+      vis2 += jp(*old);
+    }
+  }
+  ll rsize = -1;
+#if defined(C18_RSIZE)
+  rsize = capped ? -1 : sat(static_cast<ull>(fcppt::range::size(r)));
+#endif
+  vj::end_call(",\"vis\":" + vis + "],\"capped\":" + b2s(capped) + ",\"vis2\":" + vis2 + "],\"rsize\":" + std::to_string(rsize) + "}");
 }
 
 template <typename T>
 void op_neighbors(std::string const &which, ll x, ll y)
 {
+  if (!want()) return;
   using pos = fcppt::container::grid::pos<T, 2>;
   vj::begin_call(vj::J().kv("f", which).kv("T", pname<T>()).raw("p", "[" + std::to_string(x) + "," + std::to_string(y) + "]").s);
   std::string r = "[";
@@ -453,23 +630,28 @@ void op_neighbors(std::string const &which, ll x, ll y)
     }
   vj::end_call(",\"r\":" + r + "]}");
 }
+#endif // C18_U_GRID
 
+#if defined(C18_U_ITER)
 // ------------------------------------------------------------------ iterator::range, adapt_range, range::size
 void op_iter_range(int len, int i, int j, std::string const &via)
 {
+  if (!want()) return;
   vj::begin_call(vj::J().kv("f", "iter_range").kv("len", len).kv("i", i).kv("j", j).kv("via", via).s);
   std::vector<int> cont;
   for (int k = 0; k < len; ++k) cont.push_back(10 * k + 3);
   std::vector<int> const &ccont = cont;
   std::vector<ll> seq;
-  ll rsize = 0;
+  ll rsize = -1;
   auto const walk = [&seq, &rsize](auto const &r) {
     for (auto it = r.begin(); it != r.end(); ++it)
     {
       if (seq.size() == CAP) break;
       seq.push_back(*it);
     }
+#if defined(C18_RSIZE)
     rsize = sat(static_cast<ull>(fcppt::range::size(r)));
+#endif
   };
   if (via == "ctor")
     walk(fcppt::iterator::range<std::vector<int>::iterator>(cont.begin() + i, cont.begin() + j));
@@ -490,6 +672,11 @@ void op_iter_range(int len, int i, int j, std::string const &via)
     std::list<int> lst(cont.begin(), cont.end());
     walk(fcppt::iterator::adapt_range(lst));
   }
+  else if (via == "adapt_deque")
+  {
+    std::deque<int> const dq(cont.begin(), cont.end());
+    walk(fcppt::iterator::adapt_range(dq));
+  }
   else if (via == "adapt")
     walk(fcppt::iterator::adapt_range(cont));
   else
@@ -497,10 +684,13 @@ void op_iter_range(int len, int i, int j, std::string const &via)
   std::vector<ll> c(cont.begin(), cont.end());
   vj::end_call(",\"cont\":" + jl(c) + ",\"seq\":" + jl(seq) + ",\"rsize\":" + std::to_string(rsize) + "}");
 }
+#endif // C18_U_ITER
 
+#if defined(C18_U_OBS)
 template <fcppt::math::size_type S, fcppt::math::size_type E>
 void op_static_range()
 {
+  if (!want()) return;
   vj::begin_call(vj::J().kv("f", "static_int_range").kv("s", static_cast<ll>(S)).kv("e", static_cast<ll>(E)).s);
   std::vector<ll> seq;
   fcppt::algorithm::loop(
@@ -511,6 +701,7 @@ void op_static_range()
 template <fcppt::math::size_type C>
 void op_static_count()
 {
+  if (!want()) return;
   vj::begin_call(vj::J().kv("f", "static_int_range").kv("s", 0).kv("e", static_cast<ll>(C)).s);
   std::vector<ll> seq;
   fcppt::algorithm::loop(
@@ -544,19 +735,22 @@ void static_count_by(ll c)
   default: throw std::runtime_error("static count not instantiated");
   }
 }
+#endif // C18_U_OBS
 
-
+#if defined(C18_U_CYCLIC)
 // ------------------------------------------------------------------ extension: iterator::base operations
 // random-access operations of cyclic_iterator (through fcppt::iterator::base): two iterators a (at
 // position i) and b (at position j) of the same boundary and a distance n
 void op_cyclic_ra(int len, int i, int j, int n)
 {
+  if (!want()) return;
   vj::begin_call(vj::J().kv("f", "cyclic_ra").kv("len", len).kv("i", i).kv("j", j).kv("n", n).s);
   std::vector<int> cont;
   for (int k = 0; k < len + 2 * MARGIN; ++k) cont.push_back(1000 + k - MARGIN);
   using cit = std::vector<int>::const_iterator;
   using cyc = fcppt::cyclic_iterator<cit>;
   cit const first = cont.begin() + MARGIN;
+  int const *const first_p = cont.data() + MARGIN;
   cyc::boundary const bd{first, first + len};
   cyc const a(first + i, bd), b(first + j, bd);
   auto const idx = [&](cyc const &c) { return static_cast<ll>(c.get() - first); };
@@ -572,20 +766,27 @@ void op_cyclic_ra(int len, int i, int j, int n)
   cyc const postold = post++;
   cyc dec(a);
   cyc const decold = dec--;
+  cyc pdec(a);
+  cyc const &pdecref = --pdec;
   cyc s1(a), s2(b);
   s1.swap(s2);
+  int const &subr = a[n];
   vj::J o;
   o.kv("base", 1000).kv("apn", idx(apn)).kv("back", idx(back)).kv("npa", idx(npa)).kv("dba", static_cast<ll>(dba)).kv("dab", static_cast<ll>(dab))
-      .kv("reach", idx(reach)).kv("sub", static_cast<ll>(a[n])).kv("deref", static_cast<ll>(*(a + n))).kv("lt", a < b).kv("gt", a > b).kv("le", a <= b)
+      .kv("reach", idx(reach)).kv("sub", static_cast<ll>(subr)).kv("subi", static_cast<ll>(&subr - first_p)).kv("deref", static_cast<ll>(*(a + n)))
+      .kv("arrow", static_cast<ll>(apn.operator->() - first_p)).kv("lt", a < b).kv("gt", a > b).kv("le", a <= b)
       .kv("ge", a >= b).kv("eq", a == b).kv("ne", a != b).kv("pre", idx(pre)).kv("preret", idx(preref)).kv("post", idx(post)).kv("postold", idx(postold))
-      .kv("dec", idx(dec)).kv("decold", idx(decold)).kv("swa", idx(s1)).kv("swb", idx(s2));
+      .kv("dec", idx(dec)).kv("decold", idx(decold)).kv("pdec", idx(pdec)).kv("pdecret", idx(pdecref)).kv("swa", idx(s1)).kv("swb", idx(s2));
   vj::end_call("," + o.s.substr(1) + "}");
 }
+#endif
 
+#if defined(C18_U_OBS)
 // input-iterator operations of int_iterator<T> (value v) and enum_::iterator<E>
 template <typename T>
 void op_int_iter(ll v, ll w)
 {
+  if (!want()) return;
   using I = tinfo<T>;
   using it_t = fcppt::int_iterator<T>;
   vj::begin_call(vj::J().kv("f", "int_iter").kv("T", I::name()).kv("st", I::st).kv("v", v).kv("w", w).s);
@@ -606,6 +807,7 @@ void op_int_iter(ll v, ll w)
 template <typename E>
 void op_enum_iter(ll v, ll w)
 {
+  if (!want()) return;
   using it_t = fcppt::enum_::iterator<E>;
   using sz = typename it_t::size_type;
   ll const n = static_cast<ll>(E::fcppt_maximum) + 1;
@@ -629,8 +831,10 @@ void all_enum_iters()
   for (ll v = 0; v < n; ++v)
     for (ll w = 0; w < n; ++w) op_enum_iter<E>(v, w);
 }
+#endif
 
 // ------------------------------------------------------------------ enumeration
+#if defined(C18_U_INT)
 template <typename T>
 std::vector<ll> edge_values()
 {
@@ -661,7 +865,7 @@ void edge_ranges()
     for (ll e : v)
       if (e - b <= 8)
       {
-        op_int_range<T>(b, e, mk);
+        op_int_range<T>(b, e, mk, true);
         mk = !mk;
       }
   for (ll n : v)
@@ -676,7 +880,8 @@ void full_ranges(int stride)
   int k = 0;
   for (ll b = mn; b <= mx; ++b)
     for (ll e = mn; e <= mx; ++e, ++k)
-      if (stride == 1 || k % stride == 0 || (e - b <= 2 && b - e <= 2) || b == mn || e == mx || b == mx || e == mn) op_int_range<T>(b, e, (k & 1) != 0);
+      if (stride == 1 || k % stride == 0 || (e - b <= 2 && b - e <= 2) || b == mn || e == mx || b == mx || e == mn)
+        op_int_range<T>(b, e, (k & 1) != 0, k % 5 == 0 || (e - b <= 2 && b - e <= 2) || e == mx);
   for (ll n = mn; n <= mx; ++n) op_int_range_count<T>(n);
 }
 
@@ -694,80 +899,42 @@ void wide_ranges()
         op_int_range_wide<W>(static_cast<int>(bi), static_cast<int>(ei));
     }
 }
+#endif
 
 void record(bool thorough)
 {
-  // integer ranges
-  full_ranges<std::int8_t>(1);
-  full_ranges<std::uint8_t>(1);
-  full_ranges<st_i8>(thorough ? 1 : 7);
-  full_ranges<st_u8>(thorough ? 1 : 7);
+  (void)thorough;
+#if defined(C18_U_OBS)
+  // observed only (outside the statement of C18): fcppt::range::size on every kind of range, math::int_range,
+  // the iterators taken by themselves
+  for (ll b = -128; b <= 127; b += 15)
+    for (ll e = -128; e <= 127; e += 17) op_int_range<std::int8_t>(b, e, true, false);
   edge_ranges<std::int16_t>();
-  edge_ranges<std::uint16_t>();
   edge_ranges<int>();
-  edge_ranges<st_i32>();
-  edge_ranges<st_i16>();
-  edge_ranges<st_u16>();
   for (ll b = -4; b <= 4; ++b)
     for (ll e = -4; e <= 4; ++e) op_int_range_rsize(b, e);
-  wide_ranges<int>();
-  wide_ranges<unsigned>();
-  wide_ranges<long>();
-  wide_ranges<unsigned long>();
-  // enum ranges
-  all_enum_ranges<e1>();
   all_enum_ranges<e3>();
   all_enum_ranges<e9>();
-  all_enum_ranges<e5>();
-  all_enum_ranges<e4>();
   all_enum_ranges<e6>();
-  all_enum_ranges<e2>();
-  // cyclic iterator
-  for (int len = 1; len <= 6; ++len)
-    for (int start = 0; start < len; ++start)
-      for (int n = -20; n <= 20; ++n) op_cyclic(len, start, n);
-  // extension: iterator::base operations
-  for (int len = 1; len <= 5; ++len)
-    for (int i = 0; i < len; ++i)
-      for (int j = 0; j < len; ++j)
-        for (int n = -7; n <= 7; ++n) op_cyclic_ra(len, i, j, n);
-  // spiral, neighbours
-  ll const origins[][2] = {{0, 0}, {-3, 2}, {5, -7}, {100, -100}, {-1, -1}};
-  for (auto const &o : origins)
-    for (ll d = 0; d <= (thorough ? 8 : 6); ++d)
-    {
-      op_spiral<int>(o[0], o[1], d);
-      op_spiral<long>(o[0], o[1], d);
-    }
-  for (ll x = -2; x <= 2; ++x)
-    for (ll y = -2; y <= 2; ++y)
-    {
-      op_neighbors<int>("moore", x, y);
-      op_neighbors<int>("neumann", x, y);
-      op_neighbors<long>("moore", x * 1000, y - 7);
-      op_neighbors<long>("neumann", x * 1000, y - 7);
-      op_neighbors<unsigned long>("moore", x + 3, y + 3);
-      op_neighbors<unsigned>("neumann", x + 3, y + 3);
-    }
-  // iterator ranges
-  for (int len = 0; len <= 5; ++len)
+  for (ll d = 0; d <= 4; ++d)
+  {
+    op_spiral<int>(-3, 2, d);
+    op_spiral<long>(5, -7, d);
+  }
+  for (int len = 0; len <= 4; ++len)
   {
     for (int i = 0; i <= len; ++i)
       for (int j = i; j <= len; ++j)
       {
-        op_iter_range(len, i, j, "ctor");
         op_iter_range(len, i, j, "make_range");
         op_iter_range(len, i, j, "make_range_list");
-        op_iter_range(len, i, j, "make_range_deque");
       }
     op_iter_range(len, 0, len, "adapt_list");
     op_iter_range(len, 0, len, "adapt");
-    op_iter_range(len, 0, len, "adapt_const");
   }
   for (ll c : {0, 1, 2, 3, 7}) static_count_by(c);
   ll const sr[][2] = {{0, 0}, {0, 1}, {0, 4}, {2, 5}, {3, 3}, {1, 2}, {4, 9}};
   for (auto const &p : sr) static_range_by(p[0], p[1]);
-  // observed only (outside the statement of C18): the iterators taken by themselves, driven last
   for (ll v : {-128, -127, -1, 0, 1, 5, 125, 126})
     for (ll w : {-128, 0, 5, 126, 127})
     {
@@ -787,87 +954,174 @@ void record(bool thorough)
   all_enum_iters<e9>();
   all_enum_iters<e4>();
   all_enum_iters<e6>();
+#else
+#if defined(C18_U_INT)
+  // integer ranges: the small sections first (a crash in the long exhaustive part does not hide them)
+  edge_ranges<std::int16_t>();
+  edge_ranges<std::uint16_t>();
+  edge_ranges<int>();
+  edge_ranges<st_i32>();
+  edge_ranges<st_i16>();
+  edge_ranges<st_u16>();
+  wide_ranges<int>();
+  wide_ranges<unsigned>();
+  wide_ranges<long>();
+  wide_ranges<unsigned long>();
+  full_ranges<std::int8_t>(1);
+  full_ranges<std::uint8_t>(1);
+  full_ranges<st_i8>(thorough ? 1 : 7);
+  full_ranges<st_u8>(thorough ? 1 : 7);
+#endif
+#if defined(C18_U_ENUM)
+  all_enum_ranges<e1>();
+  all_enum_ranges<e3>();
+  all_enum_ranges<e9>();
+  all_enum_ranges<e5>();
+  all_enum_ranges<e4>();
+  all_enum_ranges<e6>();
+  all_enum_ranges<e2>();
+#endif
+#if defined(C18_U_CYCLIC)
+  for (int len = 1; len <= 6; ++len)
+    for (int start = 0; start < len; ++start)
+      for (int n = -20; n <= 20; ++n) op_cyclic(len, start, n);
+  for (int len = 1; len <= 6; ++len)
+    for (int start = 0; start < len; ++start)
+      for (int n = -20; n <= 20; ++n) op_cyclic_list(len, start, n);
+  // extension: iterator::base operations
+  for (int len = 1; len <= 6; ++len)
+    for (int i = 0; i < len; ++i)
+      for (int j = 0; j < len; ++j)
+        for (int n = -7; n <= 7; ++n) op_cyclic_ra(len, i, j, n);
+#endif
+#if defined(C18_U_GRID)
+  ll const origins[][2] = {{0, 0}, {-3, 2}, {5, -7}, {100, -100}, {-1, -1}};
+  for (auto const &o : origins)
+    for (ll d = 0; d <= (thorough ? 8 : 6); ++d)
+    {
+      op_spiral<int>(o[0], o[1], d);
+      op_spiral<long>(o[0], o[1], d);
+    }
+  for (ll x = -2; x <= 2; ++x)
+    for (ll y = -2; y <= 2; ++y)
+    {
+      op_neighbors<int>("moore", x, y);
+      op_neighbors<int>("neumann", x, y);
+      op_neighbors<long>("moore", x * 1000, y - 7);
+      op_neighbors<long>("neumann", x * 1000, y - 7);
+      op_neighbors<unsigned long>("moore", x + 3, y + 3);
+      op_neighbors<unsigned>("neumann", x + 3, y + 3);
+    }
+#endif
+#if defined(C18_U_ITER)
+  for (int len = 0; len <= 5; ++len)
+  {
+    for (int i = 0; i <= len; ++i)
+      for (int j = i; j <= len; ++j)
+      {
+        op_iter_range(len, i, j, "ctor");
+        op_iter_range(len, i, j, "make_range");
+        op_iter_range(len, i, j, "make_range_list");
+        op_iter_range(len, i, j, "make_range_deque");
+      }
+    op_iter_range(len, 0, len, "adapt_list");
+    op_iter_range(len, 0, len, "adapt_deque");
+    op_iter_range(len, 0, len, "adapt");
+    op_iter_range(len, 0, len, "adapt_const");
+  }
+#endif
+#endif
 }
 
+#if defined(C18_U_INT)
 template <typename F>
 void by_type(std::string const &T, bool st, F const &f)
 {
-  if (T == "i8") return st ? f(fcppt::tag<st_i8>{}) : f(fcppt::tag<std::int8_t>{});
-  if (T == "u8") return st ? f(fcppt::tag<st_u8>{}) : f(fcppt::tag<std::uint8_t>{});
-  if (T == "i16") return st ? f(fcppt::tag<st_i16>{}) : f(fcppt::tag<std::int16_t>{});
-  if (T == "u16") return st ? f(fcppt::tag<st_u16>{}) : f(fcppt::tag<std::uint16_t>{});
-  if (T == "i32") return st ? f(fcppt::tag<st_i32>{}) : f(fcppt::tag<int>{});
+  if (T == "i8") return st ? f(tg<st_i8>{}) : f(tg<std::int8_t>{});
+  if (T == "u8") return st ? f(tg<st_u8>{}) : f(tg<std::uint8_t>{});
+  if (T == "i16") return st ? f(tg<st_i16>{}) : f(tg<std::int16_t>{});
+  if (T == "u16") return st ? f(tg<st_u16>{}) : f(tg<std::uint16_t>{});
+  if (T == "i32") return st ? f(tg<st_i32>{}) : f(tg<int>{});
   throw std::runtime_error("replay: unknown type " + T);
 }
+#endif
 
+// replays the record if its kind belongs to this unit (the check passes the record to the right unit)
 void replay(vj::V const &v)
 {
   std::string const f = v.str("f");
+#if defined(C18_U_INT)
   if (f == "int_range")
-    by_type(v.str("T"), v.at("st").b, [&]<typename T>(fcppt::tag<T>) { op_int_range<T>(v.num("b"), v.num("e"), v.str("via") == "mk"); });
-  else if (f == "int_range_count")
-    by_type(v.str("T"), v.at("st").b, [&]<typename T>(fcppt::tag<T>) { op_int_range_count<T>(v.num("n")); });
-  else if (f == "int_range_rsize")
-    op_int_range_rsize(v.num("b"), v.num("e"));
-  else if (f == "int_range_wide")
+    return by_type(v.str("T"), v.at("st").b, [&]<typename T>(tg<T>) { op_int_range<T>(v.num("b"), v.num("e"), v.str("via") == "mk", true); });
+  if (f == "int_range_count") return by_type(v.str("T"), v.at("st").b, [&]<typename T>(tg<T>) { op_int_range_count<T>(v.num("n")); });
+  if (f == "int_range_wide")
   {
     std::string const T = v.str("T");
     int const bi = static_cast<int>(v.num("bi")), ei = static_cast<int>(v.num("ei"));
-    if (T == "i32") op_int_range_wide<int>(bi, ei);
-    else if (T == "u32") op_int_range_wide<unsigned>(bi, ei);
-    else if (T == "i64") op_int_range_wide<long>(bi, ei);
-    else op_int_range_wide<unsigned long>(bi, ei);
+    if (T == "i32") return op_int_range_wide<int>(bi, ei);
+    if (T == "u32") return op_int_range_wide<unsigned>(bi, ei);
+    if (T == "i64") return op_int_range_wide<long>(bi, ei);
+    return op_int_range_wide<unsigned long>(bi, ei);
   }
-  else if (f == "enum_range")
+#endif
+#if defined(C18_U_ENUM)
+  if (f == "enum_range")
   {
     std::string const E = v.str("E");
-    if (E == "e1") op_enum_range<e1>(v.str("via"), v.num("s"), v.num("e"));
-    else if (E == "e3") op_enum_range<e3>(v.str("via"), v.num("s"), v.num("e"));
-    else if (E == "e9") op_enum_range<e9>(v.str("via"), v.num("s"), v.num("e"));
-    else if (E == "e4") op_enum_range<e4>(v.str("via"), v.num("s"), v.num("e"));
-    else if (E == "e6") op_enum_range<e6>(v.str("via"), v.num("s"), v.num("e"));
-    else if (E == "e2") op_enum_range<e2>(v.str("via"), v.num("s"), v.num("e"));
-    else op_enum_range<e5>(v.str("via"), v.num("s"), v.num("e"));
+    if (E == "e1") return op_enum_range<e1>(v.str("via"), v.num("s"), v.num("e"));
+    if (E == "e3") return op_enum_range<e3>(v.str("via"), v.num("s"), v.num("e"));
+    if (E == "e9") return op_enum_range<e9>(v.str("via"), v.num("s"), v.num("e"));
+    if (E == "e4") return op_enum_range<e4>(v.str("via"), v.num("s"), v.num("e"));
+    if (E == "e6") return op_enum_range<e6>(v.str("via"), v.num("s"), v.num("e"));
+    if (E == "e2") return op_enum_range<e2>(v.str("via"), v.num("s"), v.num("e"));
+    return op_enum_range<e5>(v.str("via"), v.num("s"), v.num("e"));
   }
-  else if (f == "cyclic_ra")
-    op_cyclic_ra(static_cast<int>(v.num("len")), static_cast<int>(v.num("i")), static_cast<int>(v.num("j")), static_cast<int>(v.num("n")));
-  else if (f == "int_iter")
-    by_type(v.str("T"), v.at("st").b, [&]<typename T>(fcppt::tag<T>) { op_int_iter<T>(v.num("v"), v.num("w")); });
-  else if (f == "enum_iter")
-  {
-    std::string const E = v.str("E");
-    if (E == "e1") op_enum_iter<e1>(v.num("v"), v.num("w"));
-    else if (E == "e3") op_enum_iter<e3>(v.num("v"), v.num("w"));
-    else if (E == "e9") op_enum_iter<e9>(v.num("v"), v.num("w"));
-    else if (E == "e4") op_enum_iter<e4>(v.num("v"), v.num("w"));
-    else op_enum_iter<e6>(v.num("v"), v.num("w"));
-  }
-  else if (f == "cyclic")
-    op_cyclic(static_cast<int>(v.num("len")), static_cast<int>(v.num("start")), static_cast<int>(v.num("n")));
-  else if (f == "spiral")
+#endif
+#if defined(C18_U_CYCLIC)
+  if (f == "cyclic_ra")
+    return op_cyclic_ra(static_cast<int>(v.num("len")), static_cast<int>(v.num("i")), static_cast<int>(v.num("j")), static_cast<int>(v.num("n")));
+  if (f == "cyclic") return op_cyclic(static_cast<int>(v.num("len")), static_cast<int>(v.num("start")), static_cast<int>(v.num("n")));
+  if (f == "cyclic_list") return op_cyclic_list(static_cast<int>(v.num("len")), static_cast<int>(v.num("start")), static_cast<int>(v.num("n")));
+#endif
+#if defined(C18_U_GRID)
+  if (f == "spiral")
   {
     auto const o = v.nums("o");
-    if (v.str("T") == "i32") op_spiral<int>(o.at(0), o.at(1), v.num("d"));
-    else op_spiral<long>(o.at(0), o.at(1), v.num("d"));
+    if (v.str("T") == "i32") return op_spiral<int>(o.at(0), o.at(1), v.num("d"));
+    return op_spiral<long>(o.at(0), o.at(1), v.num("d"));
   }
-  else if (f == "moore" || f == "neumann")
+  if (f == "moore" || f == "neumann")
   {
     auto const p = v.nums("p");
     std::string const T = v.str("T");
-    if (T == "i32") op_neighbors<int>(f, p.at(0), p.at(1));
-    else if (T == "i64") op_neighbors<long>(f, p.at(0), p.at(1));
-    else if (T == "u32") op_neighbors<unsigned>(f, p.at(0), p.at(1));
-    else op_neighbors<unsigned long>(f, p.at(0), p.at(1));
+    if (T == "i32") return op_neighbors<int>(f, p.at(0), p.at(1));
+    if (T == "i64") return op_neighbors<long>(f, p.at(0), p.at(1));
+    if (T == "u32") return op_neighbors<unsigned>(f, p.at(0), p.at(1));
+    return op_neighbors<unsigned long>(f, p.at(0), p.at(1));
   }
-  else if (f == "iter_range")
-    op_iter_range(static_cast<int>(v.num("len")), static_cast<int>(v.num("i")), static_cast<int>(v.num("j")), v.str("via"));
-  else if (f == "static_int_range")
+#endif
+#if defined(C18_U_ITER)
+  if (f == "iter_range") return op_iter_range(static_cast<int>(v.num("len")), static_cast<int>(v.num("i")), static_cast<int>(v.num("j")), v.str("via"));
+#endif
+#if defined(C18_U_OBS)
+  if (f == "int_range_rsize") return op_int_range_rsize(v.num("b"), v.num("e"));
+  if (f == "int_iter") return by_type(v.str("T"), v.at("st").b, [&]<typename T>(tg<T>) { op_int_iter<T>(v.num("v"), v.num("w")); });
+  if (f == "enum_iter")
   {
-    if (v.num("s") == 0 && (v.num("e") == 2 || v.num("e") == 3 || v.num("e") == 7)) static_count_by(v.num("e"));
-    else static_range_by(v.num("s"), v.num("e"));
+    std::string const E = v.str("E");
+    if (E == "e1") return op_enum_iter<e1>(v.num("v"), v.num("w"));
+    if (E == "e3") return op_enum_iter<e3>(v.num("v"), v.num("w"));
+    if (E == "e9") return op_enum_iter<e9>(v.num("v"), v.num("w"));
+    if (E == "e4") return op_enum_iter<e4>(v.num("v"), v.num("w"));
+    return op_enum_iter<e6>(v.num("v"), v.num("w"));
   }
-  else
-    throw std::runtime_error("replay: unknown f " + f);
+  if (f == "static_int_range")
+  {
+    if (v.num("s") == 0 && (v.num("e") == 2 || v.num("e") == 3 || v.num("e") == 7)) return static_count_by(v.num("e"));
+    return static_range_by(v.num("s"), v.num("e"));
+  }
+#endif
+  throw std::runtime_error("replay: record kind " + f + " does not belong to this unit");
 }
 }
 
@@ -875,15 +1129,17 @@ int main(int argc, char **argv)
 {
   if (argc < 4)
   {
-    std::fprintf(stderr, "usage: c18_ranges record OUT tier | replay RECORD OUT\n");
+    std::fprintf(stderr, "usage: c18_ranges record OUT tier [SKIP] | replay RECORD OUT\n");
     return 3;
   }
   std::string const mode = argv[1];
-  alarm(1500);
+  alarm(CALL_SECONDS);
   if (mode == "record")
   {
     vj::open(argv[2]);
+    g_skip = argc > 4 ? std::atol(argv[4]) : 0;
     record(std::string(argv[3]) == "thorough");
+    alarm(CALL_SECONDS);
     vj::close();
     return 0;
   }
